@@ -1,7 +1,50 @@
 import OMV.Model.Basic
 import OMV.Model.Spec
 import Driver.SpecJson
+import OMV.Model.C04Idx
 open Lean OMV OMV.Spec OMV.SpecJson
+
+/-! index specifications on the wire (same format as Driver/C05):
+  ix   := {"i": n} | {"s": [start|null, stop|null, step|null]} | {"a": [shape...], "d": [data...]} | "e"
+  spec := {"one": ix} | {"tup": [ix, ...]} -/
+def optInt4? (j : Json) : Option (Option Int) :=
+  match j with
+  | Json.null => some none
+  | _ => (getInt? j).map some
+
+def getIx4? (j : Json) : Option C05.Ix :=
+  match j with
+  | Json.str "e" => some .ellipsis
+  | _ =>
+    match field? j "i" with
+    | some v => (getInt? v).map C05.Ix.int
+    | none =>
+      match fieldList? j "s" with
+      | some [a, b, c] => do
+        let a ← optInt4? a
+        let b ← optInt4? b
+        let c ← optInt4? c
+        pure (.slice a b c)
+      | some _ => none
+      | none => do
+        let sh ← fieldNats? j "a"
+        let d ← fieldInts? j "d"
+        if d.length = C05.prod sh ∧ sh.length ≥ 1 then pure (.arr sh d) else none
+
+def getSpec4? (j : Json) : Option C05.Spec :=
+  match field? j "one" with
+  | some v => (getIx4? v).map C05.Spec.one
+  | none => do
+    let l ← fieldList? j "tup"
+    let xs ← l.mapM getIx4?
+    pure (.tup xs)
+
+def errStr4 : C05.Err → String
+  | .index => "index" | .value => "value" | .runtime => "runtime" | .huge => "huge"
+
+def jChain : C05.R (List (List Nat)) → Json
+  | .ok ps => jObj [("ok", jArr jNats ps)]
+  | .error e => jObj [("err", jStr (errStr4 e))]
 
 /-- run `iters` sweeps, recording what every component reads at each evaluation -/
 def sweepLog (comps : List (Comp Rat)) (u : Nat → Rat) : (Nat → Rat) × List (List Rat) :=
@@ -23,6 +66,19 @@ def handle (j : Json) : Option Json := do
     let n ← fieldNat? j "n"
     let levels ← (← fieldList? j "levels").mapM (fun l => getList? l >>= fun x => x.mapM getNat?)
     pure (jObj [("pos", jNats (chainPos n levels))])
+  | "chainspec" =>
+    -- positions of every level from the index specifications: OpenMDAO's indexer model and NumPy
+    let shape ← fieldNats? j "shape"
+    let levels ← (← fieldList? j "levels").mapM (fun l => do
+      let sp ← field? l "spec" >>= getSpec4?
+      let fl ← fieldBool? l "flat"
+      pure (sp, fl))
+    let om := C04Idx.chainSpecsOm shape levels
+    let np := C04Idx.chainSpecsNp shape levels
+    let pos : Json := match C04Idx.connPositions shape levels with
+      | .ok p => jNats p
+      | .error _ => Json.null
+    pure (jObj [("om", jChain om), ("np", jChain np), ("pos", pos)])
   | "sweep" =>
     let n ← fieldNat? j "n"
     let u0 ← fieldRats? j "u0"
